@@ -545,11 +545,15 @@ def merge_file_level(
 
         old_value, field = fields[name]
 
+        setattr(new, name, value)
         try:
             validate_field(new, field, value)
         except Exception as exc:
+            setattr(new, name, getattr(config, name))
             warning(MystWarnings.MD_TOPMATTER, str(exc))
             continue
+        # the validator may have stored a normalised form of the value
+        value = getattr(new, name)
 
         if field.metadata.get("merge_topmatter"):
             value = {**old_value, **value}
